@@ -150,7 +150,7 @@ def make_pair(g, typ, n, cls=None, mode=None, nfkind=None):
     if mode == "nonfinite":
         kind = nfkind or g.choice(NONFINITE)
         for k in sorted(g.sample(range(n), g.randrange(1, 3))):
-            s = g.choice([-1, 1])
+            s = 1 if nfkind else g.choice([-1, 1])     # ("-inf" is not readable by TextData: such files are rejected, which is fine)
             if kind == "nan-a":
                 a[k] = math.nan
             elif kind == "nan-b":
@@ -216,7 +216,7 @@ def gen_batch(seed, bi, ncmp):
         fa, fb = "a%d.txt" % k, "b%d.txt" % k
         e = {"k": k, "type": typ, "kind": kind, "ncompare": 1}
         if kind == "pair":
-            pr = make_pair(g, typ, n, mode="nonfinite" if fnf else None, nfkind=fnf)
+            pr = make_pair(g, typ, n, cls="positive" if fnf else None, mode="nonfinite" if fnf else None, nfkind=fnf)
             files[fa] = (t, [pr["a"]])
             files[fb] = (t, [pr["b"]])
             lines += ["@Interpolation None;", "@TestType %s;" % typ, prec_line(typ, pr["p1"], pr["p2"]), "@Test '%s' '%s' %s;" % (fa, fb, colref)]
@@ -227,6 +227,8 @@ def gen_batch(seed, bi, ncmp):
             scale = max(abs(x) for x in col)
             p1 = rand_prec(g, scale if typ == "Absolute" else 1.0)
             p2 = rand_prec(g, scale) if typ in TWO_PREC else 0.0
+            if fcls:
+                p1, p2 = (1e-3 * scale if typ == "Absolute" else 1e-3), (1e-9 * scale if typ in TWO_PREC else 0.0)
             files[fa] = (t, [col])
             lines += ["@Interpolation None;", "@TestType %s;" % typ, prec_line(typ, p1, p2), "@Test '%s' '%s' %s;" % (fa, fa, colref)]
             e.update({"a": col, "b": col, "p1": p1, "p2": p2, "cls": cls, "expected": "success", "self": True})
